@@ -189,7 +189,7 @@ def r_bypass(ck: Checker, ncls: set[str]) -> None:
             ck.holds("R-BYPASS-WRITE", f, w.node, what, kind=w.kind, receiver=w.recv, attr=w.attr, category=cat)
             continue
         if field_name_write(w):
-            ck.violation("R-BYPASS-WRITE", f, w.node, what, construct=f"{w.kind}({w.recv}, {norm(w.node.args[1])}, ...) assigns dataclass fields by computed name to an object that "
+            ck.violation("R-BYPASS-WRITE", f, w.node, what, positive=True, construct=f"{w.kind}({w.recv}, {norm(w.node.args[1])}, ...) assigns dataclass fields by computed name to an object that "
                          "was constructed before (the frozen node is changed after its ids were computed)", receiver=w.recv)
             continue
         ev = node_evidence(w.receiver, f, ncls)
@@ -343,7 +343,7 @@ def r_field_writes(ck: Checker, rule: str) -> None:
     hits = [w for w in scan_writes(ck.repo, mods) if field_name_write(w) and not (norm(w.receiver) == "self" and w.func.qualname.endswith(".__post_init__"))]
     if hits:
         w = hits[0]
-        ck.violation(rule, w.func, w.node, what, construct=f"{w.func.qualname}: {norm(w.node)[:70]} stores field values on {w.recv} after its content_id was computed")
+        ck.violation(rule, w.func, w.node, what, positive=True, construct=f"{w.func.qualname}: {norm(w.node)[:70]} stores field values on {w.recv} after its content_id was computed")
     else:
         ck.holds(rule, (ck.repo.mod("pyoak.node").rel, "*"), None, what)
 
@@ -377,7 +377,7 @@ def r_payload_inplace(ck: Checker) -> None:
             rec = [c for c in ast.walk(fn) if isinstance(c, ast.Call) and (dotted(c.func) or "").split(".")[-1] == own
                    and any(isinstance(x, ast.Name) and x.id in elems for a_ in c.args for x in ast.walk(a_))]
             if rec:
-                ck.violation("R-INPLACE", f, edits[0], what, construct=f"{fn.name}: edits its argument {p_} in place ({norm(edits[0])[:40]}) and calls itself on the elements of {p_}: "
+                ck.violation("R-INPLACE", f, edits[0], what, positive=True, construct=f"{fn.name}: edits its argument {p_} in place ({norm(edits[0])[:40]}) and calls itself on the elements of {p_}: "
                              "nested values of the payload (the node's own dict / list values of untyped fields) are changed by serializing")
                 return
     ck.holds("R-INPLACE", (ck.repo.mod("pyoak.serialize").rel, "*"), None, what, functions=n)
